@@ -133,7 +133,7 @@ pub fn knots_strategy(tier: Tier) -> BoxedStrategy<Case> {
         2 => vec((1i32..=5).prop_map(|i| i as f64), 2..48),
     ];
     let pattern = 0u8..8;
-    (3usize..=nmax, offsets, steps, pattern, vec(gen::moderate(12), 48), (-20i32..=20, gen::scaled(-6, 6), gen::moderate(8)))
+    (3usize..=nmax, offsets, steps, pattern, vec(gen::moderate(12), 48), (prop_oneof![4 => -20i32..=20, 1 => -250i32..=250], gen::scaled(-6, 6), gen::moderate(8)))
         .prop_map(|(n, x0, steps, pat, rnd, (scale_e, slope, icpt))| {
             let mut xs = Vec::with_capacity(n);
             let mut x = x0;
@@ -260,13 +260,13 @@ impl Prop for C04 {
         "C04"
     }
     fn rule(&self) -> String {
-        "case = knot sequence of 3..=10 (thorough 48) knots; abscissae strictly increasing by construction (x_(i+1) = max(x_i+step, next_up(x_i))): offsets {0, ±1e3, ±1e6, ±1e9, random}, steps uniform / wild 2^±10 / one-ulp / integer; ordinates monotone, oscillating, plateaued, nearly collinear (line + few-ulp noise), exactly collinear, non-increasing with flats, single peak, random; scales 2^±20. Oracle: the exact Kruger construction in 384-bit arithmetic with exact sign decisions, and its magnitude shadows (every subtraction replaced by an addition of magnitudes). Checked: (1) n-1 pieces, end_i bit-identical to x_(i+1); (2) every returned cubic, evaluated EXACTLY at both of its knots, is within 64u·(Ā+B̄|x|+C̄x²+D̄|x|³) of the ordinate, and through Evaluate::evaluate with the C01 bound added; (3) at every interior knot the exact derivatives of the two adjacent returned cubics agree with each other and with the exact knot slope (harmonic mean or 0), at the end knots with 3/2·Δ - 1/2·m, within 64u·(B̄+2C̄|x|+3D̄x²); the same through derivative().evaluate(). Domain: every intermediate of the construction within 2^±900 (else counted as excluded). Non-trivial: not exactly collinear and >= 4 knots.".into()
+        "case = knot sequence of 3..=10 (thorough 48) knots; abscissae strictly increasing by construction (x_(i+1) = max(x_i+step, next_up(x_i))): offsets {0, ±1e3, ±1e6, ±1e9, random}, steps uniform / wild 2^±10 / one-ulp / integer; ordinates monotone, oscillating, plateaued, nearly collinear (line + few-ulp noise), exactly collinear, non-increasing with flats, single peak, random; scales 2^±20 (4/5) or 2^±250 (1/5). Oracle: the exact Kruger construction in 384-bit arithmetic with exact sign decisions, and its magnitude shadows (every subtraction replaced by an addition of magnitudes). Checked: (1) n-1 pieces, end_i bit-identical to x_(i+1); (2) every returned cubic, evaluated EXACTLY at both of its knots, is within 64u·(Ā+B̄|x|+C̄x²+D̄|x|³) of the ordinate, and through Evaluate::evaluate with the C01 bound added; (3) at every interior knot the exact derivatives of the two adjacent returned cubics agree with each other and with the exact knot slope (harmonic mean or 0), at the end knots with 3/2·Δ - 1/2·m, within 64u·(B̄+2C̄|x|+3D̄x²); the same through derivative().evaluate(). Domain: every intermediate of the construction within 2^±900 (else counted as excluded). Non-trivial: not exactly collinear and >= 4 knots.".into()
     }
     fn assumptions(&self) -> Vec<String> {
         vec!["K = 64 (DESIGN.md §3.3) is the harness's reading of 'a small multiple of 2^-53 times the magnitudes of the intermediate terms'".into()]
     }
     fn cases(&self, tier: Tier) -> u64 {
-        tier.pick(40_000, 1_500_000)
+        tier.pick(150_000, 2_000_000)
     }
     fn strategy(&self, tier: Tier) -> BoxedStrategy<Case> {
         knots_strategy(tier)
@@ -383,7 +383,7 @@ impl Prop for C05 {
         vec!["K = 64 as in C04".into()]
     }
     fn cases(&self, tier: Tier) -> u64 {
-        tier.pick(40_000, 1_500_000)
+        tier.pick(150_000, 2_000_000)
     }
     fn strategy(&self, tier: Tier) -> BoxedStrategy<Case> {
         knots_strategy(tier)
